@@ -44,6 +44,7 @@ func (g *gateCtl) at(point, key string) {
 	k := point + "|" + key
 	g.mu.Lock()
 	g.hits[point]++
+	g.hits[k]++
 	rel, ok := g.armed[k]
 	if ok {
 		delete(g.armed, k)
@@ -75,6 +76,23 @@ type schedThread struct {
 	close  bool
 	res    int
 	choice string
+	noResp bool // the session hung up: its NewProxyResp cannot be read
+}
+
+func (g *gateCtl) count(k string) int {
+	g.mu.Lock()
+	defer g.mu.Unlock()
+	return g.hits[k]
+}
+
+// waitCount: until the counter for k exceeds n (or the timeout passes)
+func (g *gateCtl) waitCount(k string, n int, d time.Duration) bool {
+	for end := time.Now().Add(d); time.Now().Before(end); time.Sleep(2 * time.Millisecond) {
+		if g.count(k) > n {
+			return true
+		}
+	}
+	return false
 }
 
 func (t *schedThread) coq() string {
@@ -190,7 +208,8 @@ func runSched(cfg *hx.RunCfg) error {
 	}
 	cfg.St["acquire_gate_present"] = hasAcq
 
-	scenarios := []string{"dup-names-race", "close-then-acquire", "remembered-port-in-window", "same-port-in-window", "squatter-in-window"}
+	scenarios := []string{"dup-names-race", "close-then-acquire", "remembered-port-in-window", "same-port-in-window", "squatter-in-window",
+		"hangup-during-registration"}
 	for ci := 0; ci < cfg.N; ci++ {
 		scen := scenarios[ci%len(scenarios)]
 		needsAcq := scen == "remembered-port-in-window" || scen == "same-port-in-window" || scen == "squatter-in-window"
@@ -286,6 +305,35 @@ func runSched(cfg *hx.RunCfg) error {
 				w.recv(2, tb)
 				w.steps(tb, 2)
 			}
+		case "hangup-during-registration":
+			// B's NewProxy is being handled (parked inside the handler) when B's connection drops.  The
+			// handler runs inside the dispatcher's read loop, so the teardown can start only after it has
+			// returned: it finds the proxy and closes it; the port is free for A.
+			tb, ta := mk(nb, P, true), mk(na, P, false)
+			tb.noResp = true
+			runBefore := w.g.count("ctl.regproxy.after_run|" + nb)
+			doneBefore := w.g.count("ctl.teardown.before_done")
+			rel, ok := w.parkAt(2, tb, gateExist, 1)
+			if ok {
+				w.peers[2].Close()
+				time.Sleep(60 * time.Millisecond) // time for a dispatcher that reads ahead to notice the hang-up
+				rel()
+				w.g.waitCount("ctl.regproxy.after_run|"+nb, runBefore, 2*time.Second)
+				w.g.waitCount("ctl.teardown.before_done", doneBefore, 2*time.Second)
+				for i := 0; i < 100; i++ { // Add + ctl.proxies[...] of the in-flight handler, then the teardown loop
+					if _, still := srv.Svc.VerifProxyCloser(nb); !still && i >= 5 {
+						break
+					}
+					time.Sleep(5 * time.Millisecond)
+				}
+				w.steps(tb, 3)
+				w.steps(tb, 3)
+				w.register(1, ta)
+				if ta.res != P {
+					w.failf("port-of-dead-session-still-held", "a port registered by a session whose connection dropped during the registration is not given back",
+						"P=%d second client got %d", P, ta.res)
+				}
+			}
 		case "squatter-in-window":
 			// another process takes P between B's Acquire and B's listen: B fails and must give P back
 			tb, ta := mk(nb, P, false), mk(na, P, false)
@@ -318,7 +366,9 @@ func runSched(cfg *hx.RunCfg) error {
 		tl := []string{}
 		okRes := 0
 		for _, t := range ths {
-			res = append(res, fmt.Sprintf("(%d, %s)", t.id, hx.Z(int64(t.res))))
+			if !t.noResp {
+				res = append(res, fmt.Sprintf("(%d, %s)", t.id, hx.Z(int64(t.res))))
+			}
 			tl = append(tl, t.coq())
 			if t.res >= 0 {
 				okRes++
@@ -334,6 +384,7 @@ func runSched(cfg *hx.RunCfg) error {
 		for i := 0; i < 200 && len(osBusy("tcp", loopB, w.pw.allow)) > 0; i++ {
 			time.Sleep(5 * time.Millisecond)
 		}
+		leaked := osBusy("tcp", loopB, w.pw.allow)
 		c := fmt.Sprintf("CSched %s %s %s {| so_res := %s; so_snap := %s; so_bound := %s |}",
 			coqRanges(ranges), hx.List(tl), hx.List(w.sched), hx.List(res), snap.coq(), zlist(bound))
 		cf.Cases = append(cf.Cases, c)
@@ -346,6 +397,14 @@ func runSched(cfg *hx.RunCfg) error {
 		}
 		if len(samples) < 3 {
 			samples = append(samples, c)
+		}
+		if len(leaked) > 0 {
+			// a listener survived the end of every session and of the server: later schedules on this
+			// address would only show the same zombie again
+			failures = append(failures, map[string]string{"key": "listener-survives-all-sessions",
+				"what": "a public port is still bound after every session ended and the server was closed",
+				"case": fmt.Sprintf("%s: ports %v", scen, leaked)})
+			break
 		}
 	}
 	cf.Tail = coqTail(map[string]int{"NS_REGISTERED": 61, "NS_LISTENFAIL": 62, "NS_PORT_USED": 63, "NS_NAME_EXISTS": 64})
